@@ -201,7 +201,7 @@ def C10(prog: Program, run: Run, tier: str) -> None:
 def C11(prog: Program, run: Run, tier: str) -> None:
     run.add(guards.identity_shortcircuit(prog), "R-GUARDSEQ `return gbox` only under all five conditions; output box from the buffered footprint in the requested CRS")
     run.add(_only(_fwd(prog, {"overlap", "geobox"}), "overlap:compute_output_geobox", "geobox:GeoBox.to_crs", "geobox:GeoBoxBase.footprint"), FWD_DESC)
-    run.add(_only(axis.rule_axis(prog, {"overlap", "crs"}), "overlap:compute_output_geobox", "overlap:get_scale", "crs:"), AXIS_DESC)
+    run.add(_only(axis.rule_axis(prog, {"overlap", "crs", "geobox"}), "overlap:compute_output_geobox", "overlap:get_scale", "crs:", "geobox:GeoBox.from_bbox", "geobox:GeoBoxBase.footprint"), AXIS_DESC)
     run.floor("R-GUARDSEQ|", 6)
 
 
